@@ -153,12 +153,12 @@ theorem infoRefused_false (info : List Nat) (hne : info ≠ [])
     · rw [h] at h2; exact absurd h2 (by decide)
 
 /-- two accepted INFO columns give the same record -/
-theorem parseVcfRecord_info (n : Nat) (chrom pos id ref alt qual filter info info' format : List Nat)
+theorem parseVcfRecord_info (n prev : Nat) (chrom pos id ref alt qual filter info info' format : List Nat)
     (samples : List (List Nat))
     (hf : ∀ f ∈ [chrom, pos, id, ref, alt, qual, filter, info, info', format] ++ samples, 9 ∉ f)
     (h : ¬ infoRefused info) (h' : ¬ infoRefused info') :
-    parseVcfRecord n (joinTab ([chrom, pos, id, ref, alt, qual, filter, info, format] ++ samples)) =
-      parseVcfRecord n (joinTab ([chrom, pos, id, ref, alt, qual, filter, info', format] ++ samples)) := by
+    parseVcfRecord n prev (joinTab ([chrom, pos, id, ref, alt, qual, filter, info, format] ++ samples)) =
+      parseVcfRecord n prev (joinTab ([chrom, pos, id, ref, alt, qual, filter, info', format] ++ samples)) := by
   have s1 := splitBytes_joinTab ([chrom, pos, id, ref, alt, qual, filter, info, format] ++ samples) (by simp)
     (fun l hl => hf l (by simp only [List.cons_append, List.nil_append, List.mem_cons] at hl ⊢; grind))
   have s2 := splitBytes_joinTab ([chrom, pos, id, ref, alt, qual, filter, info', format] ++ samples) (by simp)
